@@ -89,6 +89,9 @@ MISSED = {
     "C08-9": "station addresses longer than 7 octets were in the thorough tier only; 19 and 255 octets added to quick",
     "C20-9": "every harness runs in UTC, where the daylight-saving field of the broken-down time makes no difference; `mktime_args` "
              "checks the tuple handed to mktime",
+    "C19-12": "multi-adapter nodes only forwarded; `app_on_two_nets` (an application on a two-adapter node) added",
+    "C01-8": "character strings were only built from Python text (UTF-8); `str_reencode` (strings received in another character set "
+             "and passed on) added",
     "C10-5": "no frame carried a source network; `routed_noise` (garbage claiming a remote source, then a relayed valid request) added",
 }
 
